@@ -488,6 +488,62 @@ def _instr_big(ctx, k):
     ctx.evaluations += n - 1
 
 
+def O(name):
+    return bytes([F.opcodes_inverse['OP_' + name][0]])
+
+
+def _counts(ctx, case):
+    """instructions that put a length or a count on the stack: the item decodes (signed) to exactly that number, also when a
+    later integer instruction consumes it; instructions that take a length / index from the stack decode it the same way"""
+    kind, n = case
+    kw = {}
+    cache = {}
+    big = n > 1000
+    if kind == 'SIZE':
+        script = push(b'\x5a' * n) + O('SIZE')
+        if big:
+            kw = dict(stack_max_item_size=n + 8)
+    elif kind == 'DEPTH':
+        script = O('TRUE') * n + O('DEPTH')
+        if big:
+            kw = dict(stack_max_items=n + 8)
+    elif kind == 'READ_CACHE_SIZE':
+        cache = {b'k': [b'\x01'] * n}
+        script = O('READ_CACHE_SIZE') + b'\x01k'
+    elif kind == 'READ_CACHE_STACK_SIZE':
+        cache = {b'k': [b'\x01'] * n}
+        script = push(b'k') + O('READ_CACHE_STACK_SIZE')
+    elif kind == 'FLOAT_TO_INT':
+        import struct
+        script = push(struct.pack('!f', float(n))) + O('FLOAT_TO_INT')
+        if n != int(struct.unpack('!f', struct.pack('!f', float(n)))[0]):
+            return
+    elif kind == 'SPLIT':
+        script = push(b'\x5a' * 600) + push(enc_ref(n)) + O('SPLIT') + O('SIZE')
+    elif kind == 'SIZE2':      # an item longer than a single push can make
+        script = push(b'\x5a' * 40000) + push(b'\x5a' * (n - 40000)) + O('CONCAT') + O('SIZE')
+        kw = dict(stack_max_item_size=n + 8)
+    elif kind == 'RANDOM':
+        script = push(enc_ref(n)) + O('RANDOM') + O('SIZE')
+    else:
+        raise ValueError(kind)
+    want = 600 - n if kind == 'SPLIT' else n
+    for tail, add in ((b'', 0), (push(b'\x01') + O('ADD_INTS') + b'\x02', 1), (push(b'\xff') + O('ADD_INTS') + b'\x02', -1)):
+        ctx.ran()
+        ctx.trans()
+        try:
+            _, stack, _ = F.run_script(script + tail, dict(cache), **kw)
+            items, raised = stack.list(), None
+        except BaseException as e:
+            items, raised = None, e
+        ctx.outcome('count:%s:%s' % (kind, 'raised' if raised is not None else 'ok'))
+        if raised is not None or not items or len(items[-1]) == 0 or int.from_bytes(items[-1], 'big', signed=True) != want + add:
+            ctx.violation({'op': kind, 'clause': 'a length / count put on the stack decodes to that number'},
+                          f'{kind} of {n}{" then ADD_INTS with %+d" % add if add else ""}: '
+                          f'{type(raised).__name__ if raised is not None else [i.hex()[:20] for i in items[-2:]]} (want {want + add})')
+    ctx.evaluations += 2
+
+
 def blocks(tier, seed):
     q = tier == 'quick'
     bl = []
@@ -518,6 +574,15 @@ def blocks(tier, seed):
     bl.append(Block('int_instructions_raised_item_limit', [8200, 14284, 14285, 14286, 16384, 32768, 60000], _instr_big,
                     'stack_max_item_size raised to 8192: operands +-(2^k + d), k up to 60000, x 8 second operands x all int instructions; '
                     'host int<->str digit limit at its default', nshards=7))
+    edge = (32767, 32768, 32769, 65535, 65536)
+    cc = [('SIZE', n) for n in list(range(0, 1001)) + list(edge[:4])] + [('SIZE2', 65536), ('SIZE2', 65537)] + [('DEPTH', n) for n in list(range(0, 1001)) + list(edge)] + \
+        [(k, n) for k in ('READ_CACHE_SIZE', 'READ_CACHE_STACK_SIZE') for n in list(range(0, 300)) + list(edge)] + \
+        [('FLOAT_TO_INT', n) for n in list(range(0, 300)) + list(edge) + [8388607, 8388608, 16777215]] + \
+        [('SPLIT', n) for n in range(0, 600)] + [('RANDOM', n) for n in range(0, 1001)]
+    bl.append(Block('lengths_and_counts', cc, _counts,
+                    'SIZE / DEPTH for every length / item count 0..1000 and around 2^15 and 2^16 (raised limits), READ_CACHE_SIZE / '
+                    'READ_CACHE_STACK_SIZE 0..299 and the same edges, FLOAT_TO_INT, and the length-consuming SPLIT / RANDOM; '
+                    'each alone and followed by ADD_INTS with +1 / -1', nshards=64))
     return bl
 
 
